@@ -321,6 +321,15 @@ impl W {
                 if let (Some(lt), Some(rt)) = (&lt, &rt) {
                     if lt != rt {
                         self.err(Rule::OperatorDifferentTypes, first, end);
+                        if *lt != Ty::Int && *rt != Ty::Int {
+                            // two rules are violated at once (different types, and neither
+                            // operand is an integer): not a single-fault expression
+                            self.err(
+                                if op.is_arith() { Rule::ArithmeticOperatorNonInteger } else { Rule::ComparisonNonInteger },
+                                first,
+                                end,
+                            );
+                        }
                     } else if *lt != Ty::Int {
                         self.err(
                             if op.is_arith() { Rule::ArithmeticOperatorNonInteger } else { Rule::ComparisonNonInteger },
